@@ -247,3 +247,48 @@ def run(fb, rep):
         else:
             rep.violation(R, "adjust-too-small|%s" % vn, "%s: the interpreter changes the stack by %s but Instruction::adjust says %s: max_stack_size under-reserves and the stack limit stops being a bound" % (vn, _fmt(got), _fmt(a)), ab.where())
     rep.floor(R, "instructions compared", compared, 30)
+    emit_discipline(fb, rep)
+
+
+def emit_discipline(fb, rep):
+    """every instruction enters a function's code through FunctionEnv::emit, which feeds adjust() into the account"""
+    R = "E2d"
+    CF = "gluon_vm::compiler::CompiledFunction"
+    emit = fb.body("gluon_vm::compiler::FunctionEnv::emit")
+    if emit is None:
+        rep.anchor_lost(R, "FunctionEnv::emit")
+        return
+    adj = [c for c in emit.calls() if c.res == "gluon_vm::types::Instruction::adjust"]
+    inc = [c for c in emit.calls() if c.res.endswith("FunctionEnv::increase_stack")]
+    ok = bool(adj) and bool(inc) and any(flow.has_call(flow.sources(emit, c.args[1]), lambda n: n.endswith("Instruction::adjust")) for c in inc)
+    # the negative branch subtracts from stack_size
+    subs = [1 for bb, j, rv, ln, kind in flow.field_writes(emit, "gluon_vm::compiler::FunctionEnv", "stack_size")
+            if kind == "assign" and rv[0] == "use" and any(s[0] == "op" and s[1].startswith("Sub") for s in flow.sources(emit, rv[1]))]
+    if ok and subs:
+        rep.ok(R, "FunctionEnv::emit: adjust() > 0 -> increase_stack(adjust) else stack_size -= -adjust")
+    else:
+        rep.violation(R, "emit-ignores-adjust", "FunctionEnv::emit no longer feeds Instruction::adjust into the stack account", emit.where())
+    pushers = set()
+    for b in fb.bodies.values():
+        if b.crate.name != "gluon_vm":
+            continue
+        for bb, j, rv, line, kind in flow.field_writes(b, CF, "instructions"):
+            if kind != "refmut":
+                continue
+            dest = b.stmts(bb)[j][1][0]
+            locs = flow.derived_locals(b, dest)
+            for c in b.calls():
+                if c.args and op_place(c.args[0]) is not None and op_place(c.args[0])[0] in locs:
+                    if c.res.endswith("::push") or "::extend" in c.res or "::insert" in c.res or "::append" in c.res:
+                        # appending the final `Return` (adjust 0, leaves the frame) is not a stack effect
+                        vs = flow.sources(b, c.args[1]) if len(c.args) > 1 else set()
+                        aggs = {s[2] for s in vs if s[0] == "agg" and s[1] == INSTR}
+                        if c.res.endswith("::push") and aggs == {"Return"}:
+                            continue
+                        pushers.add(b.id)
+    for p_ in sorted(pushers):
+        if p_ == emit.id or "Deserialize" in p_ or "deserialize" in p_:
+            rep.ok(R, "%s appends to CompiledFunction.instructions" % p_)
+        else:
+            rep.violation(R, "instruction-pushed-outside-emit|%s" % p_, "%s appends instructions without going through FunctionEnv::emit (the stack account misses them)" % p_, "")
+    rep.floor(R, "functions appending instructions", len(pushers), 1)
